@@ -342,7 +342,11 @@ func (s *Solver) Solve(o *Obligation) {
 			o.Model = o.Model[:4000]
 		}
 	} else if !o.Smoke {
-		os.Remove(file)
+		if keep := os.Getenv("GOVC_KEEP"); keep != "" && strings.Contains(o.Name, keep) {
+			fmt.Fprintf(os.Stderr, "kept %s: %s by %s trace=%v\n", o.Name, file, best.solver, o.Trace)
+		} else {
+			os.Remove(file)
+		}
 	}
 	if o.Smoke {
 		os.Remove(file)
